@@ -1041,6 +1041,7 @@ func (c *compiler) compileSwitchStatement(v *ast.SwitchStatement, needResult boo
 
 	var enter *enterBlock
 	var db *binding
+	var discrInitMark int
 	if scopeDeclared {
 		c.block = &block{
 			typ:        blockScope,
@@ -1049,6 +1050,9 @@ func (c *compiler) compileSwitchStatement(v *ast.SwitchStatement, needResult boo
 		}
 		enter = &enterBlock{}
 		c.emit(enter)
+		// replaced below if the discriminant has to be moved to the stash
+		discrInitMark = len(c.p.code)
+		c.emit(jump(1))
 		// create anonymous variable for the discriminant
 		bindings := c.scope.bindings
 		var bb []*binding
@@ -1120,7 +1124,13 @@ func (c *compiler) compileSwitchStatement(v *ast.SwitchStatement, needResult boo
 	}
 	if enter != nil {
 		c.leaveScopeBlock(enter)
-		enter.stackSize--
+		if c.scope.dynLookup {
+			// all bindings of a dynamic scope live in the stash, including the anonymous one
+			// for the discriminant: move the value there instead of aliasing its stack slot
+			c.p.code[discrInitMark] = initStashP(0)
+		} else {
+			enter.stackSize--
+		}
 		c.popScope()
 	}
 	c.leaveBlock()
